@@ -17,7 +17,8 @@ const STREAM_SMALL: u64 = 2;
 
 pub fn run(run: &mut Run) {
     run.rule = "random keyframe sets (0-8 keyframes, sparse properties, repeated and arbitrary-f32 positions, \
-        per-keyframe/default easings incl. recording custom easings, exact-regime timing, optional start_with) on 6 \
+        per-keyframe/default easings incl. recording custom easings, exact-regime timing, optional start_with; keyframes added \
+        in ascending order, fully shuffled, or with one straggler added last; builder setters called in varying order) on 6 \
         derive(Animate) shapes built through the real builder, plus an exhaustive small scope; each timeline is \
         evaluated at times mapping exactly to the 1/4,1/2,3/4 points of every property segment and to random k/4096 \
         positions in the first forward pass, a reverse pass, later cycles, before the delay and after the end; \
@@ -43,7 +44,7 @@ pub fn run(run: &mut Run) {
             });
         }
     });
-    // exhaustive small scope: keyframe sets with <= 2 (quick) / 3 (thorough) keyframes over
+    // exhaustive small scope: keyframe sequences (any insertion order) with <= 2 (quick) / 3 (thorough) keyframes over
     // positions {0, 1/4, 1/2, 1}, two properties each defined / omitted, easing {none, E1}.
     let max_kf = if run.thorough() { 3 } else { 2 };
     let small = small_scope(max_kf);
@@ -103,12 +104,8 @@ fn small_scope(max_kf: usize) -> Vec<TlSpec> {
         if idxs.len() == max_kf {
             return;
         }
-        let last_pi = idxs.last().map(|i| variants[*i].0).unwrap_or(0);
         for vi in 0..variants.len() {
-            // ascending positions (repeats allowed)
-            if variants[vi].0 < last_pi {
-                continue;
-            }
+            // any insertion order (repeated positions allowed)
             idxs.push(vi);
             rec(variants, idxs, max_kf, out);
             idxs.pop();
@@ -120,7 +117,18 @@ fn small_scope(max_kf: usize) -> Vec<TlSpec> {
 
 fn random_case<S: Shape>(r: &mut Rng, acc: &mut Acc, index: u64, verbose: bool) {
     let kinds = &S::KINDS[..S::N_ANIM];
-    let spec = gen_tl(r, kinds, &GenOpts { neg_delay: true, ..GenOpts::default() });
+    let mut spec = gen_tl(r, kinds, &GenOpts { neg_delay: true, ..GenOpts::default() });
+    // keyframes are not always added in ascending order: among keyframes at the same position the one added
+    // first comes first (the model sorts stably), whatever was added in between
+    match r.below(6) {
+        0 => r.shuffle(&mut spec.kfs),
+        1 if spec.kfs.len() > 1 => {
+            // one straggler: a keyframe added after all later ones
+            let k = spec.kfs.remove(r.usize(spec.kfs.len() - 1));
+            spec.kfs.push(k);
+        }
+        _ => {}
+    }
     let subst: Option<Vec<f64>> = if r.chance(1, 2) {
         Some(S::KINDS.iter().map(|k| gen_value(r, *k)).collect())
     } else {
